@@ -233,7 +233,32 @@ def gen_cases(rng, tier):
             cases.append({'id': 'c12-struct-%d' % si, 'cfg': cfg, 'hist': h, 'sub': 'ksim', 'kind': 'random', 'mode': mode, 'always': False,
                           'shadow': False, 'target_vk': 0, 'tags': {'kind': 'wrong-key-after-prefix', 'mode': mode}})
             si += 1
+    # the sequence timeout must keep the processing loop awake: leader, then nothing (or a prefix, then nothing) for longer than the
+    # timeout, then keys; run once ticking every millisecond and once blocking whenever kanata says it may
+    from checks.common import loop_pairs
+    lp = []
+    j = 0
+    for mode in ('visible-backspaced', 'hidden-suppressed', 'hidden-delay-type'):
+        for T in (60, 200):
+            for prefix in (0, 1):
+                cfg = ('(defcfg sequence-timeout %d sequence-input-mode %s)\n(defsrc a s d f)\n(deflayer l0 sldr s d f)\n'
+                       '(defvirtualkeys v0 z)\n(defseq v0 (s d))' % (T, mode))
+                h = ['t5', 'd30', 't3', 'u30', 't5']
+                if prefix:
+                    h += ['d31', 't3', 'u31']
+                h += ['t%d' % (T + 100), 'd31', 't3', 'u31', 't5', 'd32', 't3', 'u32', 't%d' % (T + 50)]
+                lp.append({'id': 'c12-loop-%d' % j, 'cfg': cfg, 'hist': h, 'sub': 'ksim', 'kind': 'loop', 'mode': mode, 'always': False,
+                           'shadow': False, 'target_vk': 0, 'tags': {'kind': 'loop-pair-timeout-while-quiet', 'mode': mode}})
+                j += 1
+    cases += loop_pairs(lp)
     return cases
+
+
+def post(all_results, run_impl, rng, tier, stats):
+    from checks.common import loop_pair_violations
+    v = loop_pair_violations(all_results)
+    stats['loop_pairs'] = sum(1 for c, it, mt in all_results if c.get('loop_mode') == '1')
+    return v
 
 
 def oracle(case, it):
@@ -311,7 +336,7 @@ def nontrivial(case, it):
 
 
 SPEC = {
-    'id': 'C12', 'sub': 'ksim', 'gen_cases': gen_cases, 'nontrivial': nontrivial, 'oracle': oracle,
+    'id': 'C12', 'sub': 'ksim', 'gen_cases': gen_cases, 'nontrivial': nontrivial, 'oracle': oracle, 'post': post,
     'rule': 'tables: 1-4 sequences of plain keys, modifier-chorded keys/groups and O-(...) groups of 2-6 keys, a quarter with a planted '
             'conflict (prefix, duplicate, permuted group), the model elaborating the encoded lists itself; typing: each defined sequence in a '
             'random permitted order, proper prefix + other key, gaps at T-1/T/T+1, all three input modes, always-on; non-trivial = table '
